@@ -36,7 +36,7 @@ U = [ABSENT, None, True, False, 0, 1, 1.0, 2, 1.5, "", "a", "b", "1", "true", []
 OPS = ["==", "!=", "<", "<=", ">", ">="]
 
 KIDS = [None, True, False, 0, 1, 2, 1.5, "", "a", "ab", "b", [], [1], [0, 2], ["a"], {}, {"a": 1}, {"a": "ab", "b": 2},
-        {"a": None}, {"a": [1, 2]}, {"b": {"a": 1}}, {"a": False, "b": "a"}, [[1]], {"a": 0}]
+        {"a": None}, {"a": [1, 2]}, {"b": {"a": 1}}, {"a": False, "b": "a"}, [[1]], {"a": 0}, "a\n", "\n", "ab\n", {"a": "ab\n"}]
 
 
 def filter_docs():
@@ -76,7 +76,9 @@ def comparables():
     lits = [L(v) for v in (None, True, False, 0, 1, 1.5, "a", "ab", "")]
     qs = [qa(), qa(C(N("a"))), qa(C(N("b"))), qa(C(I(0))), qr(C(N("k"))), qr(C(N("nope")))]
     fs = [call("length", qa()), call("length", qa(C(N("a")))), call("count", qa(C(W))), call("count", qa(D(W))),
-          call("value", qa(C(W))), call("value", qa(D(N("a")))), call("count", qa()), call("value", qa())]
+          call("value", qa(C(W))), call("value", qa(D(N("a")))), call("count", qa()), call("value", qa()),
+          call("length", call("value", qa(C(W)))), call("count", qa(C(F(("cmp", ">", qa(), L(1)))))),
+          call("value", qa(C(F(("cmp", "==", qa(), L("a"))))))]
     return lits + qs + fs
 
 
@@ -88,6 +90,8 @@ def existence_atoms():
         ("test", Q(C(N("k")))), ("test", Q(C(N("nope")))), ("test", at(C(inner1))), ("test", at(C(N("a")), C(inner2))),
         ("test", at(C(F(("test", at(C(inner1))))))), ("test", at(C(I(-1)))), ("test", at(C(("slice", None, None, None)))),
         ("test", Q(C(N("arr")), C(F(("cmp", "==", qa(), qa()))))),
+        ("test", at(C(F(("cmp", "==", qr(C(N("k"))), L(1)))))), ("test", at(C(N("a")), C(F(("cmp", "==", qr(C(N("k"))), L(2)))))),
+        ("test", at(C(F(("cmp", "==", L(1), L(1)))))), ("cmp", "==", call("count", qa(C(F(("cmp", "==", qr(C(N("k"))), L(1)))))), L(2)),
     ]
 
 
@@ -166,6 +170,13 @@ def trees(tier):
     return out
 
 
+NUMBER_SPELLINGS = [("1E-2", 0.01), ("1e-2", 0.01), ("1E2", 100), ("1e2", 100), ("1e+2", 100), ("1E+2", 100), ("1.5E1", 15), ("1.5e1", 15),
+                    ("-5E-1", -0.5), ("-5e-1", -0.5), ("1.0e-2", 0.01), ("1.0E-2", 0.01), ("100", 100), ("100.0", 100), ("0.5", 0.5),
+                    ("-0", 0), ("-0.0", 0), ("0e0", 0), ("2E0", 2), ("1e-0", 1), ("12e-1", 1.2), ("9007199254740993", 9007199254740993),
+                    ("9007199254740992", 9007199254740992), ("-9007199254740993", -9007199254740993), ("1.25e2", 125), ("5E-1", 0.5)]
+NUMBER_KIDS = [0, 0.01, 0.5, -0.5, 1, 1.2, 2, 15, 100, 125, 9007199254740992, 9007199254740993, -9007199254740993, 0.001, 99, "100", True]
+
+
 def bounds(tier, seed):
     return {"table": "%d^2 pairs x 6 ops x forms" % len(U), "atoms": len(all_atoms()), "trees": len(trees(tier)),
             "spelling_blanks": 1 if tier == "quick" else 2}
@@ -181,6 +192,7 @@ def plan(tier, seed):
     nt = len(trees(tier))
     for lo in range(0, nt, 400):
         shards.append(("E", tier, lo, min(nt, lo + 400)))
+    shards.append(("N",))
     ns = len(spelling_exprs())
     for lo in range(0, ns, 2):
         shards.append(("S", 1 if tier == "quick" else 2, lo, min(ns, lo + 2)))
@@ -238,6 +250,31 @@ def run_shard(shard, acc):
         for e in trees(shard[1])[shard[2]:shard[3]]:
             q = Q(C(N("arr")), C(F(e)))
             _eval("E", q, spell.text(q), docs, acc, tag="tree." + e[0])
+    elif kind == "N":
+        # every spelling of a number literal means its mathematical value (RFC 9535 2.3.5.1 number syntax)
+        import jsonpath
+
+        doc = {"arr": list(NUMBER_KIDS)}
+        for text, value in NUMBER_SPELLINGS:
+            for op in OPS:
+                for tmpl in ("$.arr[?@ %s %s]", "$.arr[?%s %s @]"):
+                    qtext = tmpl % ((op, text) if tmpl.endswith("%s]") else (text, op))
+                    exp = []
+                    for kid in NUMBER_KIDS:
+                        a, b = (kid, value) if tmpl.endswith("%s]") else (value, kid)
+                        if rfilter.compare(op, a, b):
+                            exp.append(kid)
+                    bad = None
+                    try:
+                        got = jsonpath.findall(qtext, doc)
+                        if len(got) != len(exp) or any(not jeq(g, x) for g, x in zip(got, exp)):
+                            bad = ("number-literal", got)
+                    except Exception as e:  # noqa: BLE001
+                        bad = ("exception", "%s: %s" % (type(e).__name__, e))
+                    acc.case("N", qtext, outcome=tuple(ckey(x) for x in exp), nontrivial=bool(exp))
+                    acc.count("number.%s" % ("some" if exp else "none"))
+                    if bad:
+                        acc.violation("N", bad[0], {"text": qtext, "literal": text, "doc": doc}, expected=exp, observed=bad[1])
     elif kind == "S":
         docs = filter_docs()
         o = spell.Opts(full_strings=False)
@@ -280,6 +317,7 @@ def REQUIRE(tier):
     for op in OPS:
         req["op%s.some" % op] = 1
         req["op%s.none" % op] = 1
+    req["number.some"] = 100
     for k in ("atom.test", "atom.cmp", "atom.call", "tree.and", "tree.or", "tree.not", "spell"):
         req[k + ".some"] = 1
         req[k + ".none"] = 1
@@ -287,6 +325,21 @@ def REQUIRE(tier):
 
 
 def check_case(sub, case, acc):
+    if sub == "N":
+        import jsonpath
+
+        lit = dict(NUMBER_SPELLINGS)[case["literal"]]
+        qtext = case["text"]
+        left = qtext.startswith("$.arr[?@ ")
+        op = [o for o in sorted(OPS, key=len, reverse=True) if (" %s " % o) in qtext][0]
+        exp = [kid for kid in NUMBER_KIDS if rfilter.compare(op, *((kid, lit) if left else (lit, kid)))]
+        try:
+            got = jsonpath.findall(qtext, case["doc"])
+            if len(got) != len(exp) or any(not jeq(g, x) for g, x in zip(got, exp)):
+                acc.violation("N", "number-literal", case, expected=exp, observed=got)
+        except Exception as e:  # noqa: BLE001
+            acc.violation("N", "exception", case, expected=exp, observed="%s: %s" % (type(e).__name__, e))
+        return
     q = tup(case["q"])
     text = case.get("text") or spell.text(q)
     _eval(sub, q, text, [case.get("doc")], acc, tag="replay")
@@ -329,6 +382,8 @@ def _sub_comparables(c):
 
 
 def shrink(sub, case):
+    if sub == "N":
+        return
     q = tup(case["q"])
     doc = case["doc"]
     segs = q[2]
@@ -418,6 +473,9 @@ def _deep_tag(x):
 
 
 def signature(sub, case, v):
+    if sub == "N":
+        import re
+        return "C02.N.%s.%s" % (v["kind"], re.sub(r"[0-9]+", "9", case["literal"]))
     q = tup(case["q"])
     f = q[2][-1][1][0]
     shape = _expr_shape(f[1]) if f[0] == "filter" else "?"
